@@ -50,6 +50,11 @@ def gen_datagrams(rng, n):
             out.append(("long-utf8-field", N.enc_req(N.RRQ, "victim.bin", mode=("a" * lead + ch * 60).encode())))
             out.append(("long-utf8-field", N.enc_error(1, ("a" * lead + ch * 150).encode())))
             out.append(("long-utf8-field", N.enc_req(N.RRQ, "victim.bin", options=[("a" * lead + ch * 40, "1")])))
+    # a file that cannot be opened at once (a FIFO nobody writes to; created in the served directory by one_run)
+    for kind in (N.RRQ, N.WRQ):
+        out.append(("special-file", N.enc_req(kind, "pipe.fifo")))
+        out.append(("special-file", N.enc_req(kind, "pipe.fifo", options=[("tsize", 0), ("timeout", 1)])))
+        out.append(("special-file", N.enc_req(kind, "sub/pipe.fifo", options=[("blksize", 1024)])))
     # names that resolve to a directory, to the served directory itself, or to nothing at all
     for nm in ("", "/", "\\", ".", "./", "//", "sub", "sub/", "sub/.", "..", "../", " ", "\t", "victim.bin/", "victim.bin/x"):
         for kind in (N.RRQ, N.WRQ):
@@ -232,6 +237,11 @@ def one_run(tftpd, flavor, single, rw, dgrams, sb, rng_seed):
     write(os.path.join(sb["srv"], "probe.bin"), content)
     write(os.path.join(sb["srv"], "victim.bin"), N.keyed_content("victim", 700))
     write(os.path.join(sb["srv"], "sub", "inner.bin"), b"inner")
+    for fifo in ("pipe.fifo", "sub/pipe.fifo"):
+        try:
+            os.mkfifo(os.path.join(sb["srv"], fifo))
+        except OSError:
+            pass
     cfg = f"{flavor}/{'single' if single else 'multi'}/{rw}"
     res = {"cfg": cfg, "sent": 0, "probes": 0, "failure": None, "labels": {}, "replies": {}}
 
